@@ -136,7 +136,7 @@ theorem parseDay_pad2 (d : Nat) (rest : Txt) (h1 : 1 ≤ d) (h2 : d ≤ 31) :
   · rw [(ascii_digit (d % 10) (by omega)).2]
     simp; omega
   · have := (ascii_digit (d % 10) (by omega)).1
-    simp only [this]
+    simp only [this, and_true]
     omega
 
 theorem pad4_spec (y : Nat) (h : y ≤ 9999) :
